@@ -202,9 +202,13 @@ def aliasOf (a : Annot) : AliasRes :=
 
 def isBindingAnnot (n : String) : Bool := ["Query", "Header", "Body", "FormField"].contains n
 
-def linkValidate (m : Method) : List Diag :=
-  let route := ((m.annots.filter (·.name = "Route")).getLast?.map (·.value)).getD ""
-  let urlParams := extractUrlParams route
+/-- `ctrlRoute` = the controller's own `@Route`: the route a method serves starts with that prefix, and the
+    `{names}` in it are bound by the method's `@Path` annotations like any other (`WithControllerRoute`) -/
+def linkValidate (ctrlRoute : String) (m : Method) : List Diag :=
+  -- the FIRST @Route: the one the route is reduced, documented and served under (`classifyAttributes`; the last one
+  -- before the fix for C10-F4)
+  let route := ((m.annots.filter (·.name = "Route")).head?.map (·.value)).getD ""
+  let urlParams := extractUrlParams ctrlRoute ++ extractUrlParams route
   let pathAttrs := m.annots.filter (·.name = "Path")
   let funcParams := m.params.map (·.name)
   -- 1. route
@@ -232,15 +236,20 @@ def linkValidate (m : Method) : List Diag :=
       let seenParams' := if known && !seenParams.contains a.value then seenParams ++ [a.value] else seenParams
       let dB := if seenVals.contains a.value then [err "linker-duplicate-path-param"] else []
       let seenVals' := if seenVals.contains a.value then seenVals else seenVals ++ [a.value]
+      -- a @Path without an alias goes by its parameter's name in the URL: that name is taken as well (fix for
+      -- C10-F5); a repeated reference is reported once, as `linker-duplicate-path-param`
+      let unaliased : List Diag × List String :=
+        ((if seenAliases.contains a.value && !seenVals.contains a.value then [err "linker-duplicate-path-alias-ref"] else []),
+         if seenAliases.contains a.value then seenAliases else seenAliases ++ [a.value])
       let (dC, seenAliases') :=
         match aliasOf a with
         | .bad => ([err "annotation-properties-invalid-value-for-key"], seenAliases)
         | .ok al =>
-          if al.isEmpty then ([], seenAliases) else
+          if al.isEmpty then unaliased else
           ((if seenAliases.contains al then [err "linker-duplicate-path-alias-ref"] else []) ++
            (if urlParams.contains al then [] else [err "linker-path-annotation-invalid-reference"]),
            if seenAliases.contains al then seenAliases else seenAliases ++ [al])
-        | .none => ([], seenAliases)
+        | .none => unaliased
       let (r, sp) := goPath rest seenParams' seenVals' seenAliases'
       (dA ++ dB ++ dC ++ r, sp)
   let (d2, seen2) := goPath pathAttrs [] [] []
@@ -269,7 +278,8 @@ def validateReceiver (env : TypeEnv) (errorEmbedders : List String) (enforce has
   if enforce && (securityUnreadable ctrlAnnots || securityUnreadable m.annots) then none else
   (validateParams env m).map fun pd =>
     commonValidate "route" m.annots ++ pd ++ validateReturns errorEmbedders m ++
-    validateSecurity enforce hasDefault ctrlAnnots m ++ linkValidate m
+    validateSecurity enforce hasDefault ctrlAnnots m ++
+    linkValidate (((ctrlAnnots.find? (·.name = "Route")).map (·.value)).getD "") m
 
 /-- controller-level diagnostics -/
 def validateControllerSelf (annots : List Annot) : List Diag :=
